@@ -61,6 +61,20 @@ def run(rep, tier, seed):
             pairs.append(("op:" + op, a, b_))
             texts.append("(%s) %s (%s)" % (a, op, b_))
             texts.append("(%s) %s (%s)" % (b_, op, a))
+    if tier != "quick":
+        # depth-2 operands: operators, indices, fields, calls and inline-ifs over the pool, sampled
+        pool2 = []
+        for _ in range(400):
+            a, b_ = rng.choice(POOL), rng.choice(POOL)
+            pool2.append(rng.choice(["(%s) + (%s)", "(%s) * (%s)", "(%s) && (%s)", "(%s) < (%s)", "(b ? (%s) : (%s))", "(%s) <? (%s)", "-(%s)", "!(%s)",
+                                     "(%s)[1]", "(%s).f", "(%s) - (%s)", "(%s) == (%s)", "(%s) & (%s)"]).replace("%s", "{0}", 1).replace("%s", "{1}").format(a, b_))
+        for _ in range(40000):
+            op = rng.choice(OPS)
+            a = rng.choice(pool2)
+            b_ = rng.choice(POOL + pool2)
+            pairs.append(("op:" + op, a, b_))
+            texts.append("(%s) %s (%s)" % (a, op, b_))
+            texts.append("(%s) %s (%s)" % (b_, op, a))
     conds = ["b", "i < j", "b && c"]
     for a, b_ in itertools.product(POOL, POOL):
         cnd = rng.choice(conds)
